@@ -366,6 +366,18 @@ pub fn run(check: &mut Check) {
         let mut older = g.bytes.clone();
         legacy_rehead(&mut older, g.pagesize, &[1 - newest]);
         check_golden(check, g, "legacy-header-older-slot", &older, &g.model, &path, &mut counts);
+        // the older slot torn (what a crash inside the pinned release's last-but-one header write
+        // would have left): the file opens on the newest header and must be continued correctly
+        if !g.stem.ends_with("dupfree") {
+            let mut torn = g.bytes.clone();
+            let at = ((1 - newest) * g.pagesize) as usize + fileck::REC_OFF + 56;
+            if at + 8 <= torn.len() {
+                for b in &mut torn[at..at + 8] {
+                    *b = 0xA5;
+                }
+                check_golden(check, g, "older-slot-torn", &torn, &g.model, &path, &mut counts);
+            }
+        }
         // every other page size must be refused and leave the file alone
         let mut others: Vec<u64> = GOLDEN_SIZES.iter().copied().filter(|p| *p != g.pagesize).collect();
         let os = unsafe { libc::sysconf(libc::_SC_PAGESIZE) } as u64;
